@@ -1,7 +1,7 @@
 (* The hand-written allocator arithmetic (Alloc/Buddy.v, Alloc/Bitmap.v, used by C14) is equal to the
    functions generated from buddy_allocator.rs / bitmap.rs / page_manager.rs (Gen/Fns.v). *)
 From Coq Require Import List NArith ZArith Bool Lia.
-From RV Require Import Gen.Consts Gen.FnsLib Gen.FnsLibP Gen.Fns Alloc.Bitmap Alloc.Buddy.
+From RV Require Import Base.Bytes Gen.Consts Gen.FnsLib Gen.FnsLibP Gen.FnsLibB Gen.FnsLibBP Gen.Fns Alloc.Bitmap Alloc.BitmapP Alloc.Buddy Alloc.Region.
 Import ListNotations.
 Open Scope N_scope.
 
@@ -104,3 +104,93 @@ Qed.
 (* ceil_log2 (page_manager.rs) is the rounded-up logarithm *)
 Lemma ceil_log2_is_log2_up : forall x, 0 < x -> Fns.ceil_log2 x = N.log2_up x.
 Proof. tie ceil_log2_is_log2_up. intros. unfold Fns.ceil_log2. now apply ceil_log2_recipe. Qed.
+
+(* ---------------------------------------------------------------- wave 2 *)
+(* TransactionalMemory::try_shrink: whether to shrink and by how many pages (page_manager.rs) *)
+Theorem try_shrink_is_model : forall m force,
+  let l := lay m in
+  let last_a := lget (regs (als m)) (num_regions l - 1) dummy_buddy in
+  mem_try_shrink m force =
+  match try_shrink_reduce_by (trailing_free_pages last_a) (blen last_a) (num_regions l) force with
+  | None => (false, m)
+  | Some reduce_by => let nl := reduce_last_region l reduce_by in (true, mkMem nl (resize_to (als m) nl))
+  end.
+Proof. tie try_shrink_is_model.
+  intros m force l last_a. unfold mem_try_shrink, try_shrink_reduce_by. fold l. fold last_a.
+  destruct (trailing_free_pages last_a =? 0); [reflexivity|].
+  destruct ((trailing_free_pages last_a <? blen last_a / 2) && negb force); reflexivity.
+Qed.
+
+(* commit(): shrinking is attempted unless the policy is Never, and forced exactly for Maximum *)
+Lemma commit_shrink_policy_is_model :
+  commit_shrink_attempted ShrinkPolicy_Default = true /\ commit_shrink_force ShrinkPolicy_Default = false
+  /\ commit_shrink_attempted ShrinkPolicy_Maximum = true /\ commit_shrink_force ShrinkPolicy_Maximum = true
+  /\ commit_shrink_attempted ShrinkPolicy_Never = false /\ commit_shrink_force ShrinkPolicy_Never = false.
+Proof. tie commit_shrink_policy_is_model. repeat split. Qed.
+
+(* check_page_order: accepted exactly when the order is at most MAX_MAX_PAGE_ORDER, the bound PageNumber::new
+   asserts and under which page_size_bytes loses no bit *)
+Lemma check_page_order_is_model : forall p,
+  isSome (TransactionalMemory_check_page_order p) = (PageNumber_f_page_order p <=? MAX_MAX_PAGE_ORDER).
+Proof. tie check_page_order_is_model.
+  intros p. unfold TransactionalMemory_check_page_order. rewrite N.ltb_antisym.
+  destruct (PageNumber_f_page_order p <=? MAX_MAX_PAGE_ORDER); reflexivity.
+Qed.
+
+(* Ord for PageNumber: lexicographic on (region, first order-0 page of the block) *)
+Lemma page_number_cmp_is_model : forall a b,
+  PageNumber_cmp a b =
+  match PageNumber_f_region a ?= PageNumber_f_region b with
+  | Eq => PageNumber_f_page_index a * 2 ^ PageNumber_f_page_order a ?= PageNumber_f_page_index b * 2 ^ PageNumber_f_page_order b
+  | c => c
+  end.
+Proof. tie page_number_cmp_is_model.
+  intros a b. unfold PageNumber_cmp. destruct (PageNumber_f_region a ?= PageNumber_f_region b); reflexivity.
+Qed.
+
+Lemma page_number_cmp_antisym : forall a b, PageNumber_cmp b a = CompOpp (PageNumber_cmp a b).
+Proof. tie page_number_cmp_antisym.
+  intros a b. rewrite !page_number_cmp_is_model.
+  rewrite (N.compare_antisym (PageNumber_f_region a)).
+  destruct (PageNumber_f_region a ?= PageNumber_f_region b); cbn [CompOpp]; try reflexivity.
+  apply N.compare_antisym.
+Qed.
+
+(* RegionTracker::from_bytes, first loop: the u32 length table behind the order count -- the model's
+   `map le_decode (chunks4 orders (nskipn 4 page))` -- and the offset 4 + 4 * orders where the data starts *)
+Lemma chunks4_snoc : forall n (l : bytes),
+  chunks4 (S n) l = chunks4 n l ++ [nfirstn 4 (nskipn (4 * N.of_nat n) l)].
+Proof.
+  induction n as [|n IH]; intros l.
+  - cbn [chunks4 app]. change (4 * N.of_nat 0) with 0. now destruct l.
+  - change (chunks4 (S (S n)) l) with (nfirstn 4 l :: chunks4 (S n) (nskipn 4 l)).
+    rewrite IH. cbn [chunks4 app]. do 3 f_equal.
+    rewrite !nskipn_skipn. rewrite skipn_add.
+    replace (N.to_nat 4 + N.to_nat (4 * N.of_nat n))%nat with (N.to_nat (4 * N.of_nat (S n))) by lia.
+    reflexivity.
+Qed.
+
+Theorem region_tracker_lens_is_model : forall page : bytes,
+  let orders := le_decode (nfirstn 4 page) in
+  region_tracker_allocator_lens page
+  = (map le_decode (chunks4 (N.to_nat orders) (nskipn 4 page)), 4 + 4 * orders).
+Proof. tie region_tracker_lens_is_model.
+  intros page orders. unfold region_tracker_allocator_lens.
+  replace (le_decode (slice_to page 4)) with orders by (unfold orders, slice_to; now rewrite nfirstn_firstn).
+  pose (P := fun (i : N) (st : list N * N) =>
+               fst st = map le_decode (chunks4 (N.to_nat i) (nskipn 4 page)) /\ snd st = 4 + 4 * i).
+  assert (R : P orders (for_range 0 orders
+                (fun _ st_ => let '(allocator_lens, start) := st_ in
+                   let allocator_len := le_decode (slice page start (start + 4)) in
+                   let allocator_lens := (allocator_lens ++ [allocator_len])%list in
+                   let start := start + 4 in (allocator_lens, start)) ([], 4))).
+  { apply for_range_inv.
+    - lia.
+    - split; reflexivity.
+    - intros j [lens st] Hj [H1 H2]. cbn [fst snd] in H1, H2. subst lens st. unfold P. cbn [fst snd]. split; [|lia].
+      rewrite N2Nat.inj_succ, chunks4_snoc, map_app. change (map le_decode [?x]) with [le_decode x].
+      rewrite N2Nat.id. f_equal. f_equal. f_equal.
+      rewrite nfirstn_firstn, !nskipn_skipn, skipn_add. unfold slice.
+      f_equal; [lia|]. f_equal. lia. }
+  destruct R as [R1 R2]. destruct (for_range _ _ _ _) as [lens st]. cbn [fst snd] in R1, R2. now subst.
+Qed.
